@@ -1949,6 +1949,7 @@ func paGenHistory(r *Rng) paInput {
 	}
 	in := paInput{Setup: s}
 	nUnd, nRed, poisoned := 0, 0, false
+	lastApproved := map[int]string{}
 	amount := func() string {
 		switch r.Intn(10) {
 		case 0:
@@ -1970,11 +1971,18 @@ func paGenHistory(r *Rng) paInput {
 		k := r.Intn(100)
 		switch {
 		case k < 14:
-			return paCall{M: "approve", Who: grantee, Amt: []string{amount(), amount(), "0", "max"}[r.Intn(4)], Types: paGenTypes(r), Catch: r.Chance(85)}
+			a := []string{amount(), amount(), "0", "max"}[r.Intn(4)]
+			lastApproved[grantee] = a
+			return paCall{M: "approve", Who: grantee, Amt: a, Types: paGenTypes(r), Catch: r.Chance(85)}
 		case k < 22:
 			return paCall{M: "increase", Who: grantee, Amt: amount(), Types: paGenTypes(r), Catch: r.Chance(85)}
 		case k < 30:
-			return paCall{M: "decrease", Who: grantee, Amt: amount(), Types: paGenTypes(r), Catch: r.Chance(85)}
+			a := amount()
+			// boundary: decrease by exactly what was approved last (the limit goes to zero)
+			if la, ok := lastApproved[grantee]; ok && la != "max" && la != "0" && r.Chance(45) {
+				a = la
+			}
+			return paCall{M: "decrease", Who: grantee, Amt: a, Types: paGenTypes(r), Catch: r.Chance(85)}
 		case k < 35:
 			return paCall{M: "revoke", Who: grantee, Types: paGenTypes(r), Catch: r.Chance(85)}
 		case k < 50:
